@@ -201,13 +201,17 @@ type PacketPool struct {
 // However they may only use the preceding portion of the packet buffer to store a link-layer
 // header. See also WithHeader
 func (p *PacketPool) Get() *Packet {
+	VerifYield("pool.get")
 	pkt := <-p.pool
+	verifPoolGet(pkt)
 	pkt.reset(p.headroom)
 	return pkt
 }
 
 // Put returns the given packet to the pool.
 func (p *PacketPool) Put(pkt *Packet) {
+	VerifYield("pool.put")
+	verifPoolPut(pkt)
 	p.pool <- pkt
 }
 
@@ -773,8 +777,10 @@ func (d *dataPlane) initQueues(processorQueueSize int) ([]chan *Packet, []chan *
 
 func (d *dataPlane) runProcessor(id int, q <-chan *Packet, slowQ chan<- *Packet) {
 	log.Debug("Initialize processor with", "id", id)
+	VerifActor("proc", id)
 	processor := newPacketProcessor(d)
 	for d.isRunning() {
+		VerifYield("proc.recv")
 		p, ok := <-q
 		if !ok {
 			continue
@@ -790,6 +796,7 @@ func (d *dataPlane) runProcessor(id int, q <-chan *Packet, slowQ chan<- *Packet)
 			// Normal processing proceeds.
 		case pSlowPath:
 			// Not an error, processing continues on the slow path.
+			VerifYield("proc.slowq")
 			select {
 			case slowQ <- p:
 			default:
@@ -825,8 +832,10 @@ func (d *dataPlane) runProcessor(id int, q <-chan *Packet, slowQ chan<- *Packet)
 
 func (d *dataPlane) runSlowPathProcessor(id int, q <-chan *Packet) {
 	log.Debug("Initialize slow-path processor with", "id", id)
+	VerifActor("slow", id)
 	processor := newSlowPathProcessor(d)
 	for d.isRunning() {
+		VerifYield("slow.recv")
 		p, ok := <-q
 		if !ok {
 			continue
